@@ -155,7 +155,7 @@ fn check(obs: &Obs, sent: &[Sent], rep: &mut Report, desc: &dyn Fn() -> J) {
 pub fn run(ctx: &Ctx) -> Report {
     let mut rep = Report::default();
     rep.rule = "cases = (command sequence with position-dependent unique payloads, read schedule); a class is a (largest-payload-length class, schedule kind) pair plus the read-end classes observed (header offset 1/2/3, boundary, payload, several commands per read); every case is non-trivial (>=1 command compared byte-for-byte)".into();
-    let n = if ctx.miri { 6 } else { ctx.n(3000, 60_000) };
+    let n = if ctx.miri { 30 } else { ctx.n(3000, 60_000) };
     let r = par_cases(ctx, "C01", "small", n, |rng, i, rep| {
         let ncmd = if ctx.miri { 2 } else { rng.range(1, 12) as usize };
         let lens: Vec<usize> = (0..ncmd).map(|_| if ctx.miri { rng.range(1, 40) as usize } else { pick_len(rng) }).collect();
